@@ -36,15 +36,24 @@ func TestVerifC04Api(t *testing.T) {
 	hists := []hist{
 		{"login-join-talk", [][2]string{{"A", "NICK a"}, {"A", "USER a 0 * :A"}, {"B", "NICK b"}, {"B", "USER b 0 * :B"}, {"A", "JOIN #c"}, {"B", "JOIN #c"}, {"A", "PRIVMSG #c :one"}, {"B", "PRIVMSG #c :two"}, {"A", "TOPIC #c :t"}, {"B", "NAMES #c"}, {"B", "WHO #c"}}},
 		{"multi-target", [][2]string{{"A", "NICK a"}, {"A", "USER a 0 * :A"}, {"B", "NICK b"}, {"B", "USER b 0 * :B"}, {"A", "JOIN #c,#d"}, {"B", "JOIN #d,#c"}, {"A", "MODE #c +i"}, {"A", "MODE #c"}, {"B", "WHOIS a"}, {"A", "KICK #c b :out"}, {"B", "LIST"}, {"A", "PART #c,#d"}}},
+		// a batch whose first replies go to somebody else only: A joins #a and #b, B is a member of #b only
+		{"partial-overlap", [][2]string{{"A", "NICK a"}, {"A", "USER a 0 * :A"}, {"B", "NICK b"}, {"B", "USER b 0 * :B"}, {"B", "JOIN #b"}, {"A", "JOIN #a,#b"}, {"A", "PRIVMSG #a :only a"}, {"A", "PRIVMSG #b :both"}, {"A", "PART #a,#b :bye"}, {"B", "PRIVMSG a :pm"}}},
 		{"errors-and-away", [][2]string{{"A", "NICK a"}, {"B", "NICK a"}, {"A", "USER a 0 * :A"}, {"B", "NICK b"}, {"B", "USER b 0 * :B"}, {"A", "AWAY :gone"}, {"B", "PRIVMSG a :hi"}, {"A", "FOO"}, {"A", "JOIN #c"}, {"B", "INVITE a #c"}, {"A", "MOTD"}, {"B", "QUIT :bye"}}},
 	}
 	type job struct {
 		h       hist
 		restart bool
+		order   []string // the order in which the sessions read (decoded batches are cached per node)
 	}
 	var jobs []job
 	for _, h := range hists {
-		jobs = append(jobs, job{h, false}, job{h, true})
+		for _, o := range [][]string{{"A", "B"}, {"B", "A"}} {
+			jobs = append(jobs, job{h, false, o}, job{h, true, o})
+		}
+	}
+	prop := os.Getenv("VERIF_API_PROP")
+	if prop == "" {
+		prop = "C04"
 	}
 	for ji, j := range jobs {
 		if ji%nshards != shard {
@@ -85,9 +94,27 @@ func TestVerifC04Api(t *testing.T) {
 			}
 			res.Restarts++
 		}
-		seq := []string{"c04api", j.h.name, fmt.Sprint(j.restart)}
+		seq := []string{"c04api", j.h.name, fmt.Sprint(j.restart), strings.Join(j.order, "")}
+		// addressed reports whether the state machine addressed message m to session num (C12: nobody else
+		// is served it, whichever path of the handler produced the line)
+		addressed := func(m robust.Message, num uint64) bool {
+			batch, ok := outputStream.Get(robust.Id{Id: m.Id.Id})
+			if !ok {
+				return true // compacted meanwhile: nothing to compare with
+			}
+			for _, om := range batch {
+				if om.Id.Reply == m.Id.Reply {
+					return om.InterestingFor[num]
+				}
+			}
+			return false
+		}
 		res.Sequences++
-		for who, s := range sess {
+		for _, who := range j.order {
+			s, ok := sess[who]
+			if !ok {
+				continue
+			}
 			nick := strings.ToLower(who)
 			if _, err := ircServer.GetSession(robust.Id{Id: s.Num}); err != nil {
 				continue // the session ended in the history (QUIT): no reader
@@ -119,6 +146,13 @@ func TestVerifC04Api(t *testing.T) {
 				break
 			}
 			full = cut(full)
+			if prop == "C12" {
+				for _, m := range full {
+					if !addressed(m, s.Num) {
+						res.report(sigs, "C12", "GET messages serves a message to a session it is not addressed to", fmt.Sprintf("history %s, session %s reading from the start: %d.%d %q", j.h.name, who, m.Id.Id-robust.MessageOffset, m.Id.Reply, m.Data), seq)
+					}
+				}
+			}
 			show := func(ms []robust.Message) string {
 				var ids []string
 				for _, m := range ms {
@@ -135,6 +169,14 @@ func TestVerifC04Api(t *testing.T) {
 					continue
 				}
 				got = cut(got)
+				if prop == "C12" {
+					for _, m := range got {
+						if !addressed(m, s.Num) {
+							res.report(sigs, "C12", "GET messages serves a message to a session it is not addressed to (resumed stream)", fmt.Sprintf("history %s, session %s, lastseen=%s: %d.%d %q", j.h.name, who, ls, m.Id.Id-robust.MessageOffset, m.Id.Reply, m.Data), seq)
+						}
+					}
+					continue
+				}
 				want := full[k+1:]
 				same := len(got) == len(want)
 				for x := 0; same && x < len(got); x++ {
